@@ -101,11 +101,24 @@ def permutations_of(doc, r, limit):
     return out, False
 
 
+XML_NS = 'xmlns:a="urn:example:vendor-a" xmlns:b="urn:example:vendor-b" xmlns:xsi="http://www.w3.org/2001/XMLSchema-instance"'
+
+
+def xml_text(items):
+    """An XML document <root> of <item> elements; items = [(attribute list in WRITTEN order, text)]."""
+    body = "".join("<item %s>%s</item>" % (" ".join('%s="%s"' % kv for kv in attrs), text) for attrs, text in items)
+    return "<root %s>%s</root>" % (XML_NS, body)
+
+
 def _job(args):
     a, b, opts = args
     from harness.flatten import Inconclusive, record_diff
     try:
-        ta, tb = docs.build(a, opts), docs.build(b, opts)
+        if isinstance(a, str):
+            import xml.etree.ElementTree as ET
+            ta, tb = docs.build_xml(ET.fromstring(a), opts), docs.build_xml(ET.fromstring(b), opts)
+        else:
+            ta, tb = docs.build(a, opts), docs.build(b, opts)
         trace, _ = record_diff(ta, tb, opts, views=False)
         return {"v": canonical_script(trace), "raised": False, "trace": trace if a is b or len(json.dumps(a)) < 400 else None}
     except Inconclusive as ex:
@@ -176,6 +189,39 @@ def run():
     for (x, y) in big_pairs:
         jobs.append((x, y, docs.ALL_OPTS[0]))
         meta.append((n_base, "auto"))
+    # XML attributes are a mapping too: the same elements with their attributes written in every order, incl. attributes of
+    # the same LOCAL name in different namespaces (two different names), namespaced next to plain ones, xml: / xsi: ones
+    apool = ("id", "name", "a:id", "b:id", "a:name", "xml:lang", "xsi:type", "x", "b:x")
+    n_xml = 40 if t == "quick" else 300
+    for xi in range(n_xml):
+        def items():
+            out = []
+            for _ in range(r.randint(1, 2)):
+                names = r.sample(apool, r.randint(2, 4))
+                if xi % 2 == 0 and "a:id" not in names:
+                    names = ["a:id", "b:id"] + names[:1]
+                out.append(([(n, r.choice(("1", "4", "17", "v"))) for n in names], r.choice(("", "t", "text"))))
+            return out
+        ia = items()
+        ib = [(list(at), tx) for at, tx in ia]
+        for at, _ in ib[:1]:
+            k = r.randrange(len(at))
+            at[k] = (at[k][0], at[k][1] + "0")              # one attribute value changed
+        variants_a = [[(list(p), tx) for p, (_, tx) in zip(perm, ia)] for perm in
+                      itertools.islice(itertools.product(*[itertools.permutations(at) for at, _ in ia]), 6)]
+        variants_b = [[(list(p), tx) for p, (_, tx) in zip(perm, ib)] for perm in
+                      itertools.islice(itertools.product(*[itertools.permutations(at) for at, _ in ib]), 6)]
+        for opts in (docs.ALL_OPTS[0], docs.ALL_OPTS[6]):
+            for va_, vb_ in [(variants_a[0], variants_b[0])] + [(r.choice(variants_a), r.choice(variants_b)) for _ in range(5)]:
+                jobs.append((xml_text(va_), xml_text(vb_), opts))
+                meta.append((n_base + 1 + xi, opts["strategy"]))
+            # and each document against its own re-ordered copy: equal as data
+            jobs.append((xml_text(variants_a[0]), xml_text(variants_a[-1]), opts))
+            meta.append((n_base + 1000 + xi, opts["strategy"]))
+            jobs.append((xml_text(variants_a[-1]), xml_text(variants_a[0]), opts))
+            meta.append((n_base + 1000 + xi, opts["strategy"]))
+            jobs.append((xml_text(variants_a[0]), xml_text(variants_a[0]), opts))
+            meta.append((n_base + 1000 + xi, opts["strategy"]))
     ctx = mp.get_context("fork")
     with ctx.Pool(min(16, os.cpu_count() or 4), initializer=_init, maxtasksperchild=500) as pool:
         results = pool.map(_job, jobs, chunksize=16)
